@@ -37,3 +37,31 @@ Example C16_wrap_points :
   /\ effective File CFault 256 = Refused /\ effective Env CPort 65536 = Refused
   /\ effective File CPort 4464 = Running 4464.
 Proof. repeat split. Qed.
+
+(* ---- the whole configuration: is_valid_config as written (one flag, only ever cleared, checks in
+   source order) accepts exactly the documented configurations ---- *)
+Theorem C16_valid_config_iff : forall c, is_valid_config c = VOk true <-> config_ok c = true.
+Proof. exact valid_config_iff. Qed.
+Print Assumptions C16_valid_config_iff.
+
+(* an out-of-range value or a missing required setting refuses start-up whatever the other settings
+   are — in particular a good persistence directory with per-client statistics on does not excuse it *)
+Theorem C16_valid_config_refuses : forall c,
+  (s_port c = 0 \/ s_batch c < 1 \/ 64 < s_batch c \/ 50 < s_fault c \/ s_workers c = 0
+   \/ s_seed_len c = 0 \/ s_interface_empty c = true) ->
+  is_valid_config c <> VOk true.
+Proof. exact valid_config_refuses. Qed.
+Print Assumptions C16_valid_config_refuses.
+
+(* the validator itself panics (start-up equally refused) exactly when per-client statistics are on
+   and the configured persistence directory does not exist *)
+Theorem C16_valid_config_panic : forall c,
+  is_valid_config c = VPanic <->
+  (s_client_stats c = true /\ exists d, s_pdir c = Some d /\ d_exists d = false).
+Proof. exact valid_config_panic. Qed.
+Print Assumptions C16_valid_config_panic.
+
+Example C16_valid_config_example :
+  is_valid_config (mksettings 2002 false 32 KmsPlaintext 64 0 4 true (Some (mkdir true true false)) true) = VOk true
+  /\ is_valid_config (mksettings 2002 false 32 KmsPlaintext 65 0 4 true (Some (mkdir true true false)) true) = VOk false.
+Proof. split; reflexivity. Qed.
